@@ -192,6 +192,7 @@ package cache
 //@   at call os.OpenFile#1: bind gOpenErr = err, gFile = name
 //@   at call bytes.Equal#1: bind gHashOK = r
 //@   at call io.CopyN#1: requires gSeekPos[src] == 0
+//@   at call (*os.File).Truncate#0: requires size == 0
 //@   at call (*os.File).Write#1: requires gHashOK
 //@   at call os.OpenFile#1: requires sameStr(name, my_name)
 //@   at call os.Stat#1: bind gStatErr = err
